@@ -143,6 +143,56 @@ def mutate_val(rng, v, depth=0):
     return rand_val(rng, 1)
 
 
+def mutate_leaves(rng, v, p=0.4):
+    """same shape, other atoms: no element is inserted or deleted, so every user-controlled part must survive"""
+    if isinstance(v, (list, tuple)):
+        return type(v)(mutate_leaves(rng, x, p) for x in v)
+    if isinstance(v, dict):
+        return {k: mutate_leaves(rng, x, p) for k, x in v.items()}
+    return rand_atom(rng) if rng.random() < p else v
+
+
+def has_any(e):
+    t = e["t"]
+    if t == "unm":
+        return e["kind"] == "any"
+    if t in ("L", "T"):
+        return any(has_any(x) for x in e["es"])
+    if t == "D":
+        return any(has_any(x) for _k, x in e["es"])
+    if t == "star":
+        return True
+    return False
+
+
+def same_shape(e, new):
+    """the new value has an element for every element of the expression (nothing inserted, nothing deleted, no other type)"""
+    t = e["t"]
+    if t in ("leaf", "unm"):
+        return True
+    if t in ("L", "T"):
+        if type(new) is not (list if t == "L" else tuple) or any(x["t"] == "star" for x in e["es"]) or len(new) != len(e["es"]):
+            return False
+        # the alignment must be the identity: no old element equals a new element at another position
+        # (then every match is diagonal and every block between matches is replaced element by element)
+        for i, x in enumerate(e["es"]):
+            if has_any(x) and len(new) > 1:
+                return False                 # an always-equal object matches everywhere
+            try:
+                xv = expr_value(x)
+            except Exception:  # noqa: BLE001
+                return False
+            for j, n in enumerate(new):
+                if i != j and xv == n:
+                    return False
+        return all(same_shape(x, n) for x, n in zip(e["es"], new))
+    if t == "D":
+        if type(new) is not dict or any(x["t"] == "star" for _k, x in e["es"]) or list(new) != [k for k, _x in e["es"]]:
+            return False
+        return all(same_shape(x, new[k]) for k, x in e["es"])
+    return False
+
+
 def gen(rng, tier, shape=None):
     ctr = Ctr()
     depth = rng.choice([1, 2, 2, 3] if tier == "quick" else [1, 2, 3, 3, 4])
@@ -152,7 +202,8 @@ def gen(rng, tier, shape=None):
     mode = (shape or {}).get("mode") or rng.choice(["single"] * 6 + ["twice", "orders", "orders"])
     p_unm = 0.0 if mode == "orders" and rng.random() < 0.5 else 0.12
     e = mk_expr(rng, v, ctr, p_unm=p_unm, top=True)
-    new = mutate_val(rng, expr_value(e)) if rng.random() < 0.9 else rand_val(rng, depth)
+    r = rng.random()
+    new = mutate_leaves(rng, expr_value(e)) if r < 0.25 else mutate_val(rng, expr_value(e)) if r < 0.92 else rand_val(rng, depth)
     flags = sorted(c for c in ["fix", "update"] if rng.random() < 0.5)
     if rng.random() < 0.15:
         flags = sorted(set(flags) | {rng.choice(["create", "trim"])})
@@ -434,6 +485,13 @@ def oracle(case, obs):
                 marker = f", {k}][0]" .replace(" ", "") if "Is(" in txt or txt.startswith("f") else f"AnyThing({k})"
                 if marker in arg and txt not in arg:
                     fails.append(("C10", "unmanaged_untouched", f"unmanaged {txt} was altered: {first['arg']}"))
+        # ... and when the new value has the same shape (nothing inserted or deleted anywhere) nothing can disappear:
+        # every user-controlled part is still there, verbatim
+        if same_shape(e, new):
+            for txt, (kind, k) in texts.items():
+                if kind == "unm" and txt not in arg:
+                    fails.append(("C10", "unmanaged_untouched", f"user-controlled {txt} was replaced although no element was inserted or deleted: {render(e)} -> {first['arg']} (new value {new!r}, flags {first['flags']})"))
+                    break
     # C02: create+fix approved, managed expression: the rewritten program passes when inline-snapshot is disabled
     fl = set(first["flags"])
     if "fix" in fl and managed(e) and case["mode"] in ("single", "twice"):
